@@ -3,9 +3,9 @@ import re
 from checks import valcomp
 from vlib.proto import unhex
 
-LEAN_TARGETS = ["LyModel.Props.C03"]
+LEAN_TARGETS = ["LyModel.Props.C03", "LyModel.Props.C03Base", "LyModel.Props.C03Union", "LyModel.Props.C03Ident", "LyModel.Props.C03Pattern", "LyModel.Props.C03Dt", "LyModel.Props.C03Hex", "LyModel.Props.C03InstId", "LyModel.Props.C03Bin"]
 AUDIT = ["Audit/C03.lean", "Audit/C03Fn.lean"]
-GENERATED = ["ValBounds", "Consts"]
+GENERATED = ["ValBounds", "Consts", "ValExt", "ValHex", "ValBin"]
 LEAN_TARGETS += ["LyModel.Props.C03Fn"]; GENERATED += ["FnUtf8"]     # functions translated from the C source (tools/c2lean.py), bridged in lean/LyModel/Bridge
 ASSUMPTIONS = [
     "libc is modelled, not verified: strtoll/strtoull of glibc 2.36 in the C locale (leading isspace, one optional sign, 0x/0 prefixes for base 0/16, "
@@ -13,14 +13,31 @@ ASSUMPTIONS = [
     "little-endian host (htole64 = id), 64-bit size_t",
     "value strings contain no NUL byte (they are C strings on every text route); whitespace around numbers is accepted as libyang documents",
     "the theorems are about the executable model lean/LyModel/Val/Model.lean; model = code is checked by correspondence on every run",
-    "derived-type plug-ins (ietf-inet-types, ietf-yang-types), binary, union, identityref, instance-identifier, leafref: laws on the implementation only",
+    "derived-type plug-ins of ietf-inet-types and of ietf-yang-types other than date-and-time and the hex-string family (hex-string, mac-address, phys-address, uuid), "
+    "leafref, xpath1.0: laws on the implementation only; instance-identifier: data nodes with string-typed keys / leaf-lists, require-instance false; "
+    "binary: the LY_VALUE_CANON store path is not reachable through the harness",
+    "date-and-time: TZ=UTC (the harness sets it); the typedef pattern and the Unicode 14 Nd table are constants of the model",
+    "union members are the modelled types (integers, decimal64, boolean, enumeration, bits, string with length and patterns); identityref over generated module "
+    "sets whose module names are distinct from every other module of the context; all identities enabled (no if-feature), all modules implemented",
+    "string patterns: the matcher of the model is the XSD matcher of C18 (XsdRe); the generated patterns stay inside the sub-grammar on which libyang's PCRE2 "
+    "translation is correct (the deviations are findings of C18)",
 ]
-TRUSTED = ["tools/extractors/val.py (bounds, LYB sizes, executed lyplg_type_check_hints table)", "harness/api_types.c"]
+TRUSTED = ["tools/extractors/val.py (bounds, LYB sizes, executed lyplg_type_check_hints table)",
+           "tools/extractors/valx.py (shape of the union / identityref / string-pattern / date-and-time functions, repair switches)",
+           "tools/extractors/valhex.py (typedef patterns of the hex-string family, shape of the plug-in)",
+           "tools/extractors/valbin.py (base64 tables, shape of plugins_types/binary.c)",
+           "tools/checks/valinst.py + the schema serialisation check of harness/api_types.c (instance-identifier schemas)", "harness/api_types.c"]
 
 
 def classify(component, what, case):
     if component != "val" or not isinstance(case, dict):
         return None
+    from checks import valdt, valbin
+    for hook in (getattr(valdt, "classify_dt", None), getattr(valbin, "classify_bin", None)):
+        if hook:
+            r = hook(component, what, case)
+            if r:
+                return r
     law = case.get("law")
     ty = case.get("type", "")
     head = ty.split(":")[0]
@@ -47,6 +64,37 @@ def classify(component, what, case):
     # F28: date-and-time sort callback compares instants only
     if ty == "t:ietf-yang-types:date-and-time" and law in ("sort_consistent_with_eq", "leaflist_order") and case.get("reply", [None] * 3)[2] == "0":
         return "F28"
+    # F421: instance-identifier with a variable reference as key value ends in LY_EINT
+    if law == "inst_no_internal_error" and b"$" in val:
+        return "F421"
+    # F422: instance-identifier values that differ only in the order of the key predicates are unequal (string compare of the written order)
+    if law == "inst_same_instance_equal" and case.get("reply", ["", ""])[:2] == ["ok", "0"] and case["reply"][3] == "0":
+        a, b = unhex(case["a_hex"]), unhex(case["b_hex"])
+        if a != b and len(a) == len(b) and sorted(re.findall(rb"\[[^\]]*\]", a)) == sorted(re.findall(rb"\[[^\]]*\]", b)) \
+                and re.sub(rb"\[[^\]]*\]", b"", a) == re.sub(rb"\[[^\]]*\]", b"", b):
+            return "F422"
+    # F423: hex-string family: strndup() truncates a (pointer, length) value at an embedded NUL, the rest is ignored
+    if law == "hex_nul_refused" and b"\x00" in val and case.get("got", ["err"])[0] == "ok" and ty.startswith("t:ietf-yang-types:") \
+            and unhex(case["got"][1]) == val.split(b"\x00")[0].lower():
+        return "F423"
+    # F410: identityref accepts an identity derived from some but not all of the bases
+    if law == "identityref_accept_iff" and case.get("rfc") is None and case.get("got", ["err"])[0] == "ok" and len(case.get("bases", [])) > 1 \
+            and any(case.get("derived_from_base", [])) and not all(case.get("derived_from_base", [])):
+        return "F410"
+    # F411: identityref sort callback looks at the identity name only: same name, different module
+    if (ty.startswith("idref:") or (ty.startswith("U(") and "idref:" in ty)) and law in ("sort_consistent_with_eq", "leaflist_order") \
+            and case.get("reply", [None] * 3)[1:4] == ["0", "0", "0"] and b":" in unhex(case["a_hex"]) and b":" in unhex(case["b_hex"]):
+        a, b = unhex(case["a_hex"]), unhex(case["b_hex"])
+        if a.split(b":")[-1] == b.split(b":")[-1] and a != b:
+            return "F411"
+    # F412: union values of different member types with the same canonical string (sort != 0: different members)
+    if ty.startswith("U(") and law in ("eq_iff_canon_eq", "canon_idempotent"):
+        from checks import valunion
+        a, b = (case.get("a_hex"), case.get("b_hex")) if law == "eq_iff_canon_eq" else (case.get("value_hex"), case.get("canonical_hex"))
+        ma, mb = valunion.MEMBER_OF.get((ty, a)), valunion.MEMBER_OF.get((ty, b))
+        r = case.get("reply") if law == "eq_iff_canon_eq" else case.get("cmp")
+        if ma is not None and mb is not None and ma != mb and r and r[0] == "ok" and r[1] == "0" and r[2] != "0" and r[3] == "1":
+            return "F412"
     # F63: a JSON string carrying a 64-bit integer is parsed in base 0 (0x.., leading 0 = octal), the other sources in base 10
     if law in ("same_verdict_all_sources", "hints_base") and head in ("i64", "u64") and case.get("route") == "json-string" \
             and re.match(rb"^[ \t\n\r\x0b\x0c]*[-+]?0[0-9xX]", val):
